@@ -8,7 +8,7 @@ from .numfmt import SEP_CONFIGS, check_print, render_literal
 SPEC = {
     'rule': ('literals 0x / 0o / 0b of 1..16 / 21 / 63 digits (values < 2^63), alone, in + - * with a second operand, and as source of '
              '"N [to|as] hex|hexadecimal|octal|binary|decimal" (also without connective); decimal and fractional N (halves, thirds); '
-             'boundary integers 2^k, 2^k+-1 (k<=62), 0..4096, log-uniform random up to 2^53; every printed based literal is fed back '
+             'boundary integers 2^k, 2^k+-1 (k<=62), 0..4096, log-uniform random up to 2^53; a name holding the fractional result of an operation on a based literal, then converted; based literals glued to a unit or duration word (0x400mb, 0b11days); every printed based literal is fed back '
              '(round trip) when the integer is <= 2^53. Oracle: Python int()/format(). non-trivial = every case; distinct = distinct text'),
     'min_nontrivial': 2000,
     'budget_s': {'quick': 30, 'thorough': 300},
